@@ -92,6 +92,7 @@ package keeper
 //@ func (Keeper).CancelAuction
 //@ requires InvAuctions()
 //@ modifies Auction, Bal, HookN, HookT, SetT, XferN, XferT
+//@ ensures [C15,C10,C11] auction-ids-stay-dense: err == nil && old(InvAuctionsDense()) ==> InvAuctionsDense()
 //@ ensures [C12,C08,C18] only-auctioneer-only-standby: err == nil ==> old(Auction[msg.AuctionId]).present && old(Auction[msg.AuctionId]).Status == AuctionStatusStandBy && old(Auction[msg.AuctionId]).Auctioneer == msg.Auctioneer
 //@ ensures [C12,C08] becomes-cancelled: err == nil ==> Auction[msg.AuctionId].present && Auction[msg.AuctionId].Status == AuctionStatusCancelled
 //@ ensures [C12,C01,C02] escrow-emptied-into-auctioneer: err == nil ==> let(a, old(Auction[msg.AuctionId]), let(sd, a.SellingCoin.Denom, bal(sellEsc(msg.AuctionId), sd) == 0 && bal(addrOf(a.Auctioneer), sd) == old(bal(addrOf(a.Auctioneer), sd)) + old(bal(sellEsc(msg.AuctionId), sd))))
@@ -165,6 +166,7 @@ package keeper
 //@ requires Inv() && wfPlaceBid(msg) && !isEscrow(addrOf(msg.Bidder))
 //@ requires BidSeq[msg.AuctionId] < 18446744073709551615
 //@ modifies Auction, Bid, BidSeq, Bal, Pool, HookN, HookT, SetT, XferN, XferT
+//@ ensures [C15,C10,C11] auction-ids-stay-dense: err == nil && old(InvAuctionsDense()) ==> InvAuctionsDense()
 //@ ensures [C08,C18] only-while-open: err == nil ==> old(Auction[msg.AuctionId]).present && old(Auction[msg.AuctionId]).Status == AuctionStatusStarted
 //@ ensures [C10,C18] only-allow-listed: err == nil ==> old(AllowedBidder[msg.AuctionId][addrOf(msg.Bidder)]).present
 //@ ensures [C18] price-floor: err == nil && old(Auction[msg.AuctionId]).Kind == KindBatch ==> msg.Price >= old(Auction[msg.AuctionId]).MinBidPrice
@@ -210,6 +212,7 @@ package keeper
 //@ func (Keeper).CreateFixedPriceAuction
 //@ requires Inv() && wfCreateFixed(msg) && timesSane(msg.VestingSchedules) && !isEscrow(addrOf(msg.Auctioneer)) && AuctionSeq < 18446744073709551615
 //@ modifies Auction, AuctionSeq, Bal, Pool, HookN, HookT, SetT, XferN, XferT
+//@ ensures [C15,C10,C11] auction-ids-stay-dense: err == nil && old(InvAuctionsDense()) ==> InvAuctionsDense()
 //@ ensures [C18] end-not-passed-and-schedule-limit: err == nil ==> BlockTime <= msg.EndTime && len(msg.VestingSchedules) <= 100
 //@ ensures [C19] id-is-next: err == nil ==> result0.Id == old(AuctionSeq) && AuctionSeq == old(AuctionSeq) + 1 && !old(Auction[result0.Id]).present
 //@ ensures [C19,C16,C18] recorded-terms-are-the-message: err == nil ==> let(a, Auction[old(AuctionSeq)], a.present && a.Kind == KindFixed && a.Type == AuctionTypeFixedPrice && a.Id == old(AuctionSeq) && a.Auctioneer == msg.Auctioneer && a.StartPrice == msg.StartPrice && a.SellingCoin == msg.SellingCoin && a.PayingCoinDenom == msg.PayingCoinDenom && a.VestingSchedules == msg.VestingSchedules && a.StartTime == msg.StartTime && len(a.EndTimes) == 1 && a.EndTimes[0] == msg.EndTime && a.RemainingSellingCoin == msg.SellingCoin && a.SellingReserveAddress == strOf(sellEsc(a.Id)) && a.PayingReserveAddress == strOf(payEsc(a.Id)) && a.VestingReserveAddress == strOf(vestEsc(a.Id)))
@@ -228,6 +231,7 @@ package keeper
 //@ func (Keeper).CreateBatchAuction
 //@ requires Inv() && wfCreateBatch(msg) && timesSane(msg.VestingSchedules) && !isEscrow(addrOf(msg.Auctioneer)) && AuctionSeq < 18446744073709551615
 //@ modifies Auction, AuctionSeq, Bal, Pool, HookN, HookT, SetT, XferN, XferT
+//@ ensures [C15,C10,C11] auction-ids-stay-dense: err == nil && old(InvAuctionsDense()) ==> InvAuctionsDense()
 //@ ensures [C18,C13] end-not-passed-and-limits: err == nil ==> BlockTime <= msg.EndTime && len(msg.VestingSchedules) <= 100 && msg.MaxExtendedRound <= 30
 //@ ensures [C19] id-is-next: err == nil ==> result0.Id == old(AuctionSeq) && AuctionSeq == old(AuctionSeq) + 1 && !old(Auction[result0.Id]).present
 //@ ensures [C19,C16,C18,C13] recorded-terms-are-the-message: err == nil ==> let(a, Auction[old(AuctionSeq)], a.present && a.Kind == KindBatch && a.Type == AuctionTypeBatch && a.Id == old(AuctionSeq) && a.Auctioneer == msg.Auctioneer && a.StartPrice == msg.StartPrice && a.MinBidPrice == msg.MinBidPrice && a.MatchedPrice == 0 && a.MaxExtendedRound == msg.MaxExtendedRound && a.ExtendedRoundRate == msg.ExtendedRoundRate && a.SellingCoin == msg.SellingCoin && a.PayingCoinDenom == msg.PayingCoinDenom && a.VestingSchedules == msg.VestingSchedules && a.StartTime == msg.StartTime && len(a.EndTimes) == 1 && a.EndTimes[0] == msg.EndTime && a.SellingReserveAddress == strOf(sellEsc(a.Id)) && a.PayingReserveAddress == strOf(payEsc(a.Id)) && a.VestingReserveAddress == strOf(vestEsc(a.Id)))
@@ -245,7 +249,7 @@ package keeper
 
 // AddAllowedBidders / UpdateAllowedBidder: the programming interface other modules use to maintain an allow-list (C10, C05, C17, C19).
 //@ func (Keeper).AddAllowedBidders
-//@ requires Inv()
+//@ requires Inv() && InvAllowedKey()
 //@ modifies AllowedBidder, HookN, HookT, SetT
 //@ ensures [C10,C18] needs-an-existing-auction-and-a-non-empty-list: result == nil ==> len(allowedBidders) > 0 && Auction[auctionId].present
 //@ ensures [C05,C10] every-entry-valid-and-within-the-offer: result == nil ==> forall(j, int, 0 <= j && j < len(allowedBidders) ==> validAddr(allowedBidders[j].Bidder) && allowedBidders[j].MaxBidAmount > 0 && allowedBidders[j].MaxBidAmount <= Auction[auctionId].SellingCoin.Amount)
@@ -255,14 +259,15 @@ package keeper
 //@ ensures [C17] hook-fired-once-before-any-write: result == nil && k.hooks != nil ==> hookN("BeforeAllowedBiddersAdded") == old(hookN("BeforeAllowedBiddersAdded")) + 1 && hookArgsAre("BeforeAllowedBiddersAdded", allowedBidders)
 //@ ensures [C17] veto-aborts-before-any-write: !HookOK ==> result != nil && AllowedBidder == old(AllowedBidder)
 //@ ensures [C10,C19] preserves-the-invariant: InvAllowed()
+//@ ensures [C15] entries-record-the-auction-they-are-stored-under: InvAllowedKey()
 //@ loop 0 invariant 0 <= idx && idx <= len(allowedBidders)
-//@ loop 0 invariant InvAllowed() && HookOK
+//@ loop 0 invariant InvAllowed() && InvAllowedKey() && HookOK
 //@ loop 0 invariant forall(j, int, 0 <= j && j < idx ==> validAddr(allowedBidders[j].Bidder) && allowedBidders[j].MaxBidAmount > 0 && allowedBidders[j].MaxBidAmount <= Auction[auctionId].SellingCoin.Amount && AllowedBidder[auctionId][addrOf(allowedBidders[j].Bidder)].present)
 //@ loop 0 invariant forall(x, uint64, forall(ad, Addr, (x != auctionId ==> AllowedBidder[x][ad] == old(AllowedBidder[x][ad])) && (old(AllowedBidder[x][ad]).present ==> AllowedBidder[x][ad].present)))
 //@ loop 0 invariant hookN("BeforeAllowedBiddersAdded") == old(hookN("BeforeAllowedBiddersAdded")) + ite(k.hooks != nil, 1, 0) && (k.hooks != nil ==> hookArgsAre("BeforeAllowedBiddersAdded", allowedBidders))
 
 //@ func (Keeper).UpdateAllowedBidder
-//@ requires Inv()
+//@ requires Inv() && InvAllowedKey()
 //@ modifies AllowedBidder, HookN, HookT, SetT
 //@ ensures [C10,C18] only-an-existing-entry-of-an-existing-auction: result == nil ==> Auction[auctionId].present && old(AllowedBidder[auctionId][bidder]).present && maxBidAmount > 0
 //@ ensures [C10,C05] entry-gets-the-new-cap: result == nil ==> AllowedBidder[auctionId][bidder].present && AllowedBidder[auctionId][bidder].MaxBidAmount == maxBidAmount && AllowedBidder[auctionId][bidder].Bidder == strOf(bidder) && AllowedBidder[auctionId][bidder].AuctionId == auctionId
@@ -270,11 +275,12 @@ package keeper
 //@ ensures [C17] hook-fired-before-the-write: result == nil && k.hooks != nil ==> hookN("BeforeAllowedBidderUpdated") == old(hookN("BeforeAllowedBidderUpdated")) + 1 && hookArgsAre("BeforeAllowedBidderUpdated", auctionId, bidder, maxBidAmount) && hookT("BeforeAllowedBidderUpdated") < setT("AllowedBidder")
 //@ ensures [C17] veto-aborts-before-the-write: !HookOK ==> result != nil && AllowedBidder == old(AllowedBidder)
 //@ ensures [C10,C19] preserves-the-invariant: InvAllowed()
+//@ ensures [C15] entry-records-the-auction-it-is-stored-under: InvAllowedKey()
 
 // Message server: the only message that can touch an allow-list is MsgAddAllowedBidder, and only with the testing
 // switch on (C10); every other handler leaves AllowedBidder out of its modifies clause, which the frame check proves.
 //@ func (msgServer).AddAllowedBidder
-//@ requires Inv()
+//@ requires Inv() && InvAllowedKey()
 //@ modifies AllowedBidder, HookN, HookT, SetT
 //@ ensures [C10] refused-unless-the-testing-switch-is-on: !EnableAddAllowedBidder ==> result1 != nil && AllowedBidder == old(AllowedBidder)
 //@ ensures [C10,C18] accepted-only-for-a-valid-entry: result1 == nil ==> EnableAddAllowedBidder && validAddr(msg.AllowedBidder.Bidder) && Auction[msg.AuctionId].present && msg.AllowedBidder.MaxBidAmount > 0
@@ -283,6 +289,7 @@ package keeper
 //@ func (msgServer).PlaceBid
 //@ requires Inv() && wfPlaceBid(msg) && !isEscrow(addrOf(msg.Bidder)) && BidSeq[msg.AuctionId] < 18446744073709551615
 //@ modifies Auction, Bid, BidSeq, Bal, Pool, HookN, HookT, SetT, XferN, XferT
+//@ ensures [C15,C10,C11] auction-ids-stay-dense: err == nil && old(InvAuctionsDense()) ==> InvAuctionsDense()
 //@ ensures [C10,C18,C08] recorded-only-for-allow-listed-bidders-of-open-auctions: result1 == nil ==> old(AllowedBidder[msg.AuctionId][addrOf(msg.Bidder)]).present && old(Auction[msg.AuctionId]).Status == AuctionStatusStarted
 //@ ensures [C01,C10,C19] preserves-the-invariant: result1 == nil ==> Inv()
 
@@ -295,23 +302,27 @@ package keeper
 //@ func (msgServer).CancelAuction
 //@ requires Inv() && wfCancel(msg)
 //@ modifies Auction, Bal, HookN, HookT, SetT, XferN, XferT
+//@ ensures [C15,C10,C11] auction-ids-stay-dense: err == nil && old(InvAuctionsDense()) ==> InvAuctionsDense()
 //@ ensures [C12,C08] only-the-auctioneer-before-opening: result1 == nil ==> old(Auction[msg.AuctionId]).Status == AuctionStatusStandBy && old(Auction[msg.AuctionId]).Auctioneer == msg.Auctioneer && Auction[msg.AuctionId].Status == AuctionStatusCancelled
 //@ ensures [C19] preserves-the-invariant: InvAuctions()
 
 //@ func (msgServer).CreateFixedPriceAuction
 //@ requires Inv() && wfCreateFixed(msg) && timesSane(msg.VestingSchedules) && !isEscrow(addrOf(msg.Auctioneer)) && AuctionSeq < 18446744073709551615
 //@ modifies Auction, AuctionSeq, Bal, Pool, HookN, HookT, SetT, XferN, XferT
+//@ ensures [C15,C10,C11] auction-ids-stay-dense: err == nil && old(InvAuctionsDense()) ==> InvAuctionsDense()
 //@ ensures [C19,C01] preserves-the-invariant: result1 == nil ==> Inv() && AuctionSeq == old(AuctionSeq) + 1
 
 //@ func (msgServer).CreateBatchAuction
 //@ requires Inv() && wfCreateBatch(msg) && timesSane(msg.VestingSchedules) && !isEscrow(addrOf(msg.Auctioneer)) && AuctionSeq < 18446744073709551615
 //@ modifies Auction, AuctionSeq, Bal, Pool, HookN, HookT, SetT, XferN, XferT
+//@ ensures [C15,C10,C11] auction-ids-stay-dense: err == nil && old(InvAuctionsDense()) ==> InvAuctionsDense()
 //@ ensures [C19,C01] preserves-the-invariant: result1 == nil ==> Inv() && AuctionSeq == old(AuctionSeq) + 1
 
 //@ func (msgServer).UpdateParams
 //@ modifies Params, SetT
 //@ ensures [C18] only-the-authority-with-valid-params: result1 == nil ==> k.authority == req.Authority && Params.present && Params.AuctionCreationFee == req.Params.AuctionCreationFee && Params.PlaceBidFee == req.Params.PlaceBidFee && Params.ExtendedPeriod == req.Params.ExtendedPeriod
 //@ ensures [C18] rejected-leaves-params: result1 != nil ==> Params == old(Params)
+//@ ensures [C15,C18] stored-parameters-stay-valid: old(InvParams()) ==> InvParams()
 
 // Store listings by auction (C19: prefix ranges per auction).
 //@ func (Keeper).GetBidsByAuctionId
@@ -342,6 +353,7 @@ package keeper
 //@ requires auctionFieldsWF(auction, auction.Id) && auction.Id < 18446744073709551616
 //@ requires forall(t, Time, !VestingQueue[auction.Id][t].present)
 //@ modifies Auction, VestingQueue, Bal, SetT, XferN, XferT, *auction
+//@ ensures [C15,C10,C11] auction-ids-stay-dense: err == nil && old(InvAuctionsDense()) && old(Auction[auction.Id].present) ==> InvAuctionsDense()
 //@ ensures [C09,C02,C08] no-schedule-pays-everything-at-once: result == nil && len(auction.VestingSchedules) == 0 ==> let(pd, auction.PayingCoinDenom, let(R, old(bal(payEsc(auction.Id), pd)), bal(payEsc(auction.Id), pd) == 0 && bal(addrOf(auction.Auctioneer), pd) == old(bal(addrOf(auction.Auctioneer), pd)) + R && auction.Status == AuctionStatusFinished && VestingQueue == old(VestingQueue)))
 //@ ensures [C09,C01,C02] proceeds-move-to-the-vesting-escrow: result == nil && len(auction.VestingSchedules) > 0 ==> let(pd, auction.PayingCoinDenom, let(R, old(bal(payEsc(auction.Id), pd)), bal(payEsc(auction.Id), pd) == 0 && bal(vestEsc(auction.Id), pd) == old(bal(vestEsc(auction.Id), pd)) + R && auction.Status == AuctionStatusVesting))
 //@ ensures [C09] floor-shares-and-remainder-to-the-last: result == nil ==> let(R, old(bal(payEsc(auction.Id), auction.PayingCoinDenom)), forall(j, int, 0 <= j && j < len(auction.VestingSchedules) ==> let(q, VestingQueue[auction.Id][auction.VestingSchedules[j].ReleaseTime], q.present && q.PayingCoin.Amount == instalment(auction.VestingSchedules, R, j) && q.PayingCoin.Amount >= 0 && q.PayingCoin.Denom == auction.PayingCoinDenom && !q.Released && q.ReleaseTime == auction.VestingSchedules[j].ReleaseTime && q.AuctionId == auction.Id && q.Auctioneer == auction.Auctioneer)))
@@ -379,6 +391,7 @@ package keeper
 //@ requires auction.Status == AuctionStatusVesting
 //@ requires forall(t, Time, let(q, VestingQueue[auction.Id][t], q.present ==> q.AuctionId == auction.Id && q.ReleaseTime == t && q.PayingCoin.Amount >= 0 && validDenom(q.PayingCoin.Denom)))
 //@ modifies Auction, VestingQueue, Bal, SetT, XferN, XferT, *auction
+//@ ensures [C15,C10,C11] auction-ids-stay-dense: err == nil && old(InvAuctionsDense()) && old(Auction[auction.Id].present) ==> InvAuctionsDense()
 //@ ensures [C09,C16] due-instalments-are-released-others-untouched: result == nil ==> let(dom, old(domOf(VestingQueue, auction.Id)), forall(j, int, 0 <= j && j < ilistN(dom) ==> let(t, ilistKey(dom, j), let(q, old(VestingQueue[auction.Id][t]), ite(t <= BlockTime && !q.Released, VestingQueue[auction.Id][t].Released && sameExcept(VestingQueue[auction.Id][t], q, Released), VestingQueue[auction.Id][t] == q)))))
 //@ ensures [C09,C02] auctioneer-is-paid-exactly-the-due-instalments: result == nil ==> let(pd, auction.PayingCoinDenom, let(dom, old(domOf(VestingQueue, auction.Id)), bal(addrOf(auction.Auctioneer), pd) == old(bal(addrOf(auction.Auctioneer), pd)) + sum(j, 0, ilistN(dom), ite(ilistKey(dom, j) <= BlockTime && !old(VestingQueue[auction.Id][ilistKey(dom, j)]).Released && old(VestingQueue[auction.Id][ilistKey(dom, j)]).PayingCoin.Denom == pd, old(VestingQueue[auction.Id][ilistKey(dom, j)]).PayingCoin.Amount, 0))))
 //@ ensures [C09,C19] no-instalment-created-or-removed: forall(x, uint64, forall(t, Time, VestingQueue[x][t].present == old(VestingQueue[x][t]).present && (x != auction.Id ==> VestingQueue[x][t] == old(VestingQueue[x][t]))))
@@ -403,6 +416,7 @@ package keeper
 //@ func (Keeper).ExtendRound
 //@ requires len(ba.EndTimes) >= 1 && Params.present && ba.Id < 18446744073709551616
 //@ modifies Auction, SetT, *ba
+//@ ensures [C15,C10,C11] auction-ids-stay-dense: err == nil && old(InvAuctionsDense()) && old(Auction[ba.Id].present) ==> InvAuctionsDense()
 //@ ensures [C13] appends-last-end-plus-period: result == nil ==> len(ba.EndTimes) == old(len(ba.EndTimes)) + 1 && ba.EndTimes[len(ba.EndTimes)-1] == addDays(old(ba.EndTimes[len(ba.EndTimes)-1]), Params.ExtendedPeriod) && forall(j, int, 0 <= j && j < old(len(ba.EndTimes)) ==> ba.EndTimes[j] == old(ba.EndTimes[j]))
 //@ ensures [C13,C19] nothing-else-changes: sameExcept(ba, old(ba), EndTimes) && forall(x, uint64, x != ba.Id ==> Auction[x] == old(Auction[x]))
 //@ ensures [C13,C16] record-written: result == nil ==> Auction[ba.Id].present && Auction[ba.Id].Kind == KindBatch && sameExcept(Auction[ba.Id], ba)
@@ -462,6 +476,7 @@ package keeper
 //@ requires InvBidsWF() && 0 <= BidSeq[auction.Id] && dense1(domOf(Bid, auction.Id), BidSeq[auction.Id])
 //@ requires forall(t, Time, !VestingQueue[auction.Id][t].present)
 //@ modifies Auction, VestingQueue, Bal, HookN, HookT, SetT, XferN, XferT, *auction
+//@ ensures [C15,C10,C11] auction-ids-stay-dense: err == nil && old(InvAuctionsDense()) && old(Auction[auction.Id].present) ==> InvAuctionsDense()
 //@ ensures [C08] settles-to-vesting-or-finished: result == nil ==> auction.Status == ite(len(auction.VestingSchedules) == 0, AuctionStatusFinished, AuctionStatusVesting) && Auction[auction.Id].present && Auction[auction.Id].Status == auction.Status && sameExcept(Auction[auction.Id], auction)
 //@ ensures [C01,C02] escrows-drained: result == nil ==> bal(sellEsc(auction.Id), auction.SellingCoin.Denom) == 0 && bal(payEsc(auction.Id), auction.PayingCoinDenom) == 0
 //@ ensures [C02,C05] each-bidder-receives-the-sum-of-their-bids: result == nil ==> forall(w, string, sumSellBy(auction.Id, w, auction.PayingCoinDenom) > 0 ==> bal(addrOf(w), auction.SellingCoin.Denom) >= old(bal(addrOf(w), auction.SellingCoin.Denom)) + sumSellBy(auction.Id, w, auction.PayingCoinDenom))
@@ -477,6 +492,7 @@ package keeper
 //@ requires forall(t, Time, !VestingQueue[auction.Id][t].present)
 //@ requires 0 <= MatchedBidsLen[auction.Id]
 //@ modifies Auction, Bid, MatchedBidsLen, VestingQueue, Bal, HookN, HookT, SetT, XferN, XferT, LastMatchTotal, LastMatchPrice, *auction
+//@ ensures [C15,C10,C11] auction-ids-stay-dense: err == nil && old(InvAuctionsDense()) && old(Auction[auction.Id].present) ==> InvAuctionsDense()
 //@ ensures [C13] settles-when-no-round-is-left: result == nil && old(len(auction.EndTimes)) == auction.MaxExtendedRound + 1 ==> auction.Status != AuctionStatusStarted && len(auction.EndTimes) == old(len(auction.EndTimes))
 //@ ensures [C13] extends-when-there-was-nothing-to-compare-with: result == nil && old(len(auction.EndTimes)) != auction.MaxExtendedRound + 1 && old(MatchedBidsLen[auction.Id]) == 0 ==> len(auction.EndTimes) == old(len(auction.EndTimes)) + 1 && auction.Status == AuctionStatusStarted
 //@ ensures [C13] anti-sniping-rule-as-computed: result == nil && old(len(auction.EndTimes)) != auction.MaxExtendedRound + 1 && old(MatchedBidsLen[auction.Id]) > 0 ==> (len(auction.EndTimes) == old(len(auction.EndTimes)) + 1) == (S - decQuo(MatchedBidsLen[auction.Id] * S, old(MatchedBidsLen[auction.Id]) * S) >= auction.ExtendedRoundRate)
@@ -497,6 +513,7 @@ package keeper
 //@ func (Keeper).ExecuteStandByStatus
 //@ requires auctionFieldsWF(auction, auction.Id) && auction.Status == AuctionStatusStandBy && auction.Id < 18446744073709551616
 //@ modifies Auction, SetT, *auction
+//@ ensures [C15,C10,C11] auction-ids-stay-dense: err == nil && old(InvAuctionsDense()) && old(Auction[auction.Id].present) ==> InvAuctionsDense()
 //@ ensures [C08] opens-exactly-when-the-start-time-is-reached: auction.Status == ite(auction.StartTime <= BlockTime, AuctionStatusStarted, AuctionStatusStandBy)
 //@ ensures [C08,C16] record-follows-the-object: auction.Status == AuctionStatusStarted ==> Auction[auction.Id].present && Auction[auction.Id].Status == AuctionStatusStarted && sameExcept(Auction[auction.Id], auction)
 //@ ensures [C08,C19] nothing-else-changes: sameExcept(auction, old(auction), Status) && forall(x, uint64, x != auction.Id ==> Auction[x] == old(Auction[x])) && (auction.Status == AuctionStatusStandBy ==> Auction == old(Auction))
@@ -507,6 +524,7 @@ package keeper
 //@ requires InvBidsWF() && 0 <= BidSeq[auction.Id] && dense1(domOf(Bid, auction.Id), BidSeq[auction.Id])
 //@ requires forall(t, Time, !VestingQueue[auction.Id][t].present) && 0 <= MatchedBidsLen[auction.Id]
 //@ modifies Auction, Bid, MatchedBidsLen, VestingQueue, Bal, HookN, HookT, SetT, XferN, XferT, LastMatchTotal, LastMatchPrice, *auction
+//@ ensures [C15,C10,C11] auction-ids-stay-dense: err == nil && old(InvAuctionsDense()) && old(Auction[auction.Id].present) ==> InvAuctionsDense()
 //@ ensures [C08] untouched-before-the-end-time: old(auction.EndTimes[len(auction.EndTimes)-1]) > BlockTime ==> result == nil && Auction == old(Auction) && Bid == old(Bid) && Bal == old(Bal) && VestingQueue == old(VestingQueue) && MatchedBidsLen == old(MatchedBidsLen) && auction.Status == AuctionStatusStarted
 //@ ensures [C08,C13] settles-or-extends-at-the-end-time: result == nil && old(auction.EndTimes[len(auction.EndTimes)-1]) <= BlockTime ==> (auction.Status == ite(len(auction.VestingSchedules) == 0, AuctionStatusFinished, AuctionStatusVesting) && len(auction.EndTimes) == old(len(auction.EndTimes))) || (auction.Kind == KindBatch && auction.Status == AuctionStatusStarted && len(auction.EndTimes) == old(len(auction.EndTimes)) + 1)
 //@ ensures [C19] other-auctions-untouched: forall(x, uint64, x != auction.Id ==> Auction[x] == old(Auction[x]) && MatchedBidsLen[x] == old(MatchedBidsLen[x]))
@@ -521,6 +539,7 @@ package keeper
 //@ requires auctionFieldsWF(auction, auction.Id) && auction.Id < 18446744073709551616 && auction.Status == AuctionStatusVesting
 //@ requires forall(t, Time, let(q, VestingQueue[auction.Id][t], q.present ==> q.AuctionId == auction.Id && q.ReleaseTime == t && q.PayingCoin.Amount >= 0 && validDenom(q.PayingCoin.Denom)))
 //@ modifies Auction, VestingQueue, Bal, SetT, XferN, XferT, *auction
+//@ ensures [C15,C10,C11] auction-ids-stay-dense: err == nil && old(InvAuctionsDense()) && old(Auction[auction.Id].present) ==> InvAuctionsDense()
 //@ ensures [C08,C09] finishes-exactly-when-the-last-instalment-is-released-now: result == nil ==> let(dom, old(domOf(VestingQueue, auction.Id)), let(n, ilistN(dom), auction.Status == ite(n > 0 && ilistKey(dom, n - 1) <= BlockTime && !old(VestingQueue[auction.Id][ilistKey(dom, n - 1)]).Released, AuctionStatusFinished, AuctionStatusVesting)))
 //@ ensures [C19] other-auctions-untouched: forall(x, uint64, x != auction.Id ==> Auction[x] == old(Auction[x])) && sameExcept(auction, old(auction), Status)
 //@ ensures [C08,C16] record-follows-the-object: result == nil && auction.Status != AuctionStatusVesting ==> Auction[auction.Id].present && Auction[auction.Id].Status == AuctionStatusFinished && sameExcept(Auction[auction.Id], auction)
@@ -539,6 +558,7 @@ package keeper
 //@ func (Keeper).BeginBlocker
 //@ requires Inv() && InvVQ() && InvMatched()
 //@ modifies Auction, Bid, MatchedBidsLen, VestingQueue, Bal, HookN, HookT, SetT, XferN, XferT, LastMatchTotal, LastMatchPrice
+//@ ensures [C15,C10,C11] auction-ids-stay-dense: err == nil && old(InvAuctionsDense()) ==> InvAuctionsDense()
 //@ ensures [C08] status-moves-only-forward: result == nil ==> forall(x, uint64, old(Auction[x]).present ==> Auction[x].present && forward(old(Auction[x]).Status, Auction[x].Status))
 //@ ensures [C08,C12] no-auction-appears-or-disappears: result == nil ==> domOf(Auction) == old(domOf(Auction))
 //@ ensures [C08] waiting-auctions-open-exactly-at-their-start-time: result == nil ==> let(dom, old(domOf(Auction)), forall(j, int, 0 <= j && j < ilistN(dom) ==> let(x, ilistKey(dom, j), old(Auction[x]).Status == AuctionStatusStandBy ==> Auction[x].Status == ite(old(Auction[x]).StartTime <= BlockTime, AuctionStatusStarted, AuctionStatusStandBy))))
